@@ -34,16 +34,17 @@ type PlanItem struct {
 
 // FuncPlan mirrors vrt.FuncPlan.
 type FuncPlan struct {
-	Key       string            `json:"key"`
-	Roles     []string          `json:"roles"`
-	RootNames map[string]string `json:"root_names"`
-	Style     string            `json:"style"`
-	HasErr    bool              `json:"has_err"`
-	Items     []PlanItem        `json:"items"`
-	PreHook   string            `json:"pre_hook,omitempty"`
-	PostHook  string            `json:"post_hook,omitempty"`
-	ErrSites  []string          `json:"err_sites,omitempty"`
-	Judge     bool              `json:"judge"`
+	Key        string            `json:"key"`
+	Roles      []string          `json:"roles"`
+	RootNames  map[string]string `json:"root_names"`
+	Style      string            `json:"style"`
+	HasErr     bool              `json:"has_err"`
+	Items      []PlanItem        `json:"items"`
+	PreHook    string            `json:"pre_hook,omitempty"`
+	PostHook   string            `json:"post_hook,omitempty"`
+	ErrSites   []string          `json:"err_sites,omitempty"`
+	Judge      bool              `json:"judge"`
+	OnlyListed bool              `json:"only_listed,omitempty"`
 }
 
 // ScenPlan mirrors vrt.ScenPlan.
